@@ -133,6 +133,11 @@ def run(ctx, spec):
             # produced is first compared, field for field, with an independent reading of the same text
             fails = declared_vs_read(c, o)
         fails = fails or spec["oracle"](c, o)
+        if not fails and c.get("HoldText") and (o.get("HeldPanic") or (o.get("SolHeld") is not None and
+                                                  (o["SolHeld"] != o.get("Sol") or (o.get("ReacHeld") or {}) != (o.get("Reactions") or {})))):
+            # a caller that solves several structures in one process and looks at the results afterwards
+            fails = ["the solution handed back for this structure changed (or could no longer be read) after another structure was solved in the same process" +
+                     (": " + o["HeldPanic"][:120] if o.get("HeldPanic") else "")]
         if fails:
             if concrete < 3:
                 ctx.violation("%s fails on the implementation: %s" % (ctx.prop, "; ".join(fails[:3])),
